@@ -23,15 +23,40 @@ func init() {
 	})
 }
 
-// importStackField reports whether e selects d2ir.compiler.importStack.
-func isImportStack(info *types.Info, e ast.Expr) bool {
-	return core.FieldIs(info, e, "d2ir", "compiler", "importStack")
+// pathStack returns the field when e selects a []string field of d2ir.compiler (importStack and
+// any sibling stack of file paths such as the one peekImport keeps), else nil.
+func pathStack(info *types.Info, e ast.Expr) *types.Var {
+	v := core.FieldOf(info, e)
+	if v == nil || v.Pkg() == nil || core.RelPkg(v.Pkg().Path()) != "d2ir" {
+		return nil
+	}
+	sl, ok := v.Type().Underlying().(*types.Slice)
+	if !ok {
+		return nil
+	}
+	if b, ok := sl.Elem().Underlying().(*types.Basic); !ok || b.Kind() != types.String {
+		return nil
+	}
+	sel := ast.Unparen(e).(*ast.SelectorExpr)
+	if s, ok := info.Selections[sel]; ok {
+		t := s.Recv()
+		if p, ok := t.(*types.Pointer); ok {
+			t = p.Elem()
+		}
+		if n, ok := t.(*types.Named); ok && n.Obj().Name() == "compiler" {
+			return v
+		}
+	}
+	return nil
 }
+
+func isImportStack(info *types.Info, e ast.Expr) bool { return pathStack(info, e) != nil }
 
 type pushSite struct {
 	fi      *core.FuncInfo
 	assign  *ast.AssignStmt
 	pushed  ast.Expr
+	stack   *types.Var
 	guarded bool
 	why     string
 }
@@ -40,30 +65,49 @@ func findPushSites(c *core.Check) (pushes []pushSite, pops map[*types.Func]bool,
 	pk := c.P.Pkg("d2ir")
 	pops = map[*types.Func]bool{}
 	inlinePops = map[*core.FuncInfo][]ast.Node{}
+	info := pk.TypesInfo
+	// a path stack is a []string field of the compiler that is popped somewhere (x = x[:len(x)-1])
+	stacks := map[*types.Var]bool{}
 	for _, fi := range c.P.Funcs(pk) {
-		info := pk.TypesInfo
 		ast.Inspect(fi.Decl.Body, func(n ast.Node) bool {
 			as, ok := n.(*ast.AssignStmt)
-			if !ok || len(as.Lhs) != 1 || len(as.Rhs) != 1 || !isImportStack(info, as.Lhs[0]) {
+			if !ok || len(as.Lhs) != 1 || len(as.Rhs) != 1 || pathStack(info, as.Lhs[0]) == nil {
 				return true
 			}
+			if r, ok := ast.Unparen(as.Rhs[0]).(*ast.SliceExpr); ok && pathStack(info, r.X) == pathStack(info, as.Lhs[0]) && r.Low == nil && r.High != nil {
+				stacks[pathStack(info, as.Lhs[0])] = true
+				pops[fi.Obj] = true
+				inlinePops[fi] = append(inlinePops[fi], as)
+			}
+			return true
+		})
+	}
+	if st := structField(c.P, "d2ir", "compiler", "importStack"); st != nil {
+		stacks[st] = true
+	} else {
+		c.Broken("d2ir.compiler.importStack not found")
+	}
+	for _, fi := range c.P.Funcs(pk) {
+		ast.Inspect(fi.Decl.Body, func(n ast.Node) bool {
+			as, ok := n.(*ast.AssignStmt)
+			if !ok || len(as.Lhs) != 1 || len(as.Rhs) != 1 || !stacks[pathStack(info, as.Lhs[0])] {
+				return true
+			}
+			st := pathStack(info, as.Lhs[0])
 			switch r := ast.Unparen(as.Rhs[0]).(type) {
 			case *ast.CallExpr:
-				if id, ok := r.Fun.(*ast.Ident); ok && id.Name == "append" && len(r.Args) == 2 && isImportStack(info, r.Args[0]) {
-					ps := pushSite{fi: fi, assign: as, pushed: r.Args[1]}
+				if id, ok := r.Fun.(*ast.Ident); ok && id.Name == "append" && len(r.Args) == 2 && pathStack(info, r.Args[0]) == st {
+					ps := pushSite{fi: fi, assign: as, pushed: r.Args[1], stack: st}
 					ps.guarded, ps.why = isGuardedPush(fi, as, r.Args[1])
 					pushes = append(pushes, ps)
 					return true
 				}
 			case *ast.SliceExpr:
-				if isImportStack(info, r.X) && r.Low == nil && r.High != nil {
-					pops[fi.Obj] = true
-					inlinePops[fi] = append(inlinePops[fi], as)
+				if pathStack(info, r.X) == st && r.Low == nil && r.High != nil {
 					return true
 				}
 			}
-			// any other write to the import stack is unknown
-			pushes = append(pushes, pushSite{fi: fi, assign: as, guarded: false, why: "unrecognised write to the import stack"})
+			pushes = append(pushes, pushSite{fi: fi, assign: as, stack: st, guarded: false, why: "unrecognised write to a path stack"})
 			return true
 		})
 	}
@@ -83,7 +127,7 @@ func isGuardedPush(fi *core.FuncInfo, push *ast.AssignStmt, pushed ast.Expr) (bo
 	why := "no scan of the import stack comparing entries with the pushed path (with return on a hit) dominates the push"
 	ast.Inspect(fi.Decl.Body, func(n ast.Node) bool {
 		rs, ok := n.(*ast.RangeStmt)
-		if !ok || !isImportStack(info, rs.X) || rs.Value == nil {
+		if !ok || pathStack(info, rs.X) == nil || pathStack(info, rs.X) != pathStack(info, push.Lhs[0]) || rs.Value == nil {
 			return true
 		}
 		vobj := core.ObjOf(info, rs.Value)
@@ -131,7 +175,7 @@ func isGuardedPush(fi *core.FuncInfo, push *ast.AssignStmt, pushed ast.Expr) (bo
 }
 
 func runC14(c *core.Check) {
-	c.Rule("C14.guarded-push", "every write to compiler.importStack is a pop or an append dominated by a scan of the stack that returns when the pushed path is already present")
+	c.Rule("C14.guarded-push", "every write to a path stack of the compiler (importStack, peekStack: []string fields) is a pop or an append dominated by a scan of the stack that returns when the pushed path is already present")
 	c.Rule("C14.loader", "every function that parses and compiles an import file is dominated by a successful guarded push (call result tested, or inline)")
 	c.Rule("C14.pop", "after a successful push every exit passes a pop (deferred or explicit)")
 	c.Rule("C14.open-arg", "the path opened is the path pushed on the import stack")
